@@ -115,7 +115,7 @@ def worker_main(argv: list[str]) -> int:
     warm = shard < 0
     ctx = Ctx(pid, "quick" if warm else tier, seed, max(shard, 0), nshards,
               tempfile.mkdtemp(prefix="vf_warm_") if warm else
-              os.path.join(VERIF_DIR, "out", "violations", pid))
+              os.path.join(os.environ.get("VERIF_OUT", os.path.join(VERIF_DIR, "out")), "violations", pid))
     ctx.part = part
     ctx.warm = warm
     ctx.quick_scale = float(os.environ.get(
@@ -238,7 +238,7 @@ def parent_main(pid: str, tier: str) -> int:
     max_wall = float(os.environ.get(
         "VERIF_MAX_WALL_S", 2400 if tier == "quick" else 4 * 3600))
     tmp = tempfile.mkdtemp(prefix=f"vf_{pid}_")
-    viol_dir = os.path.join(VERIF_DIR, "out", "violations", pid)
+    viol_dir = os.path.join(os.environ.get("VERIF_OUT", os.path.join(VERIF_DIR, "out")), "violations", pid)
     shutil.rmtree(viol_dir, ignore_errors=True)
     dumps: list[dict] = []
     errors: list[str] = []
